@@ -56,7 +56,7 @@ partial def loop (h : IO.FS.Stream) (ctx : Driver.Ctx) (c : Counts) (maxPrint : 
       | some r =>
         let mut c := { c with ops := c.ops + 1 }
         let short := if line.length > 4000 then (line.take 4000).toString ++ "…" else line
-        if r.model != observed then
+        if r.model != observed && r.model != "ub" then   -- undefined behaviour permits any observation
           c := { c with modelMM := c.modelMM + 1 }
           if c.modelMM ≤ maxPrint then IO.println s!"MM model {c.lines} {r.model} | {short}"
         match r.spec with
